@@ -3,7 +3,8 @@
 
     sess <bk> <L> <F> <ch> <cut> <lost> <fuel>
       bk   : d | m                       (disk StoreChannel / MemoryChannel)
-      L    : <started>:<ids>:<cur>:<data>:<wopen>     ids comma separated, `.` = none
+      L    : <started>:<ids>:<cur>:<data>:<wopen>:<tail>   ids comma separated, `.` = none;
+             tail = hex bytes appended to the leader once a stream reader is open
       F    : <cur>|<id>=<data>|…                      `_` = empty id
       data : `-` (nothing) | <base>/<hex bytes>/<hex snapshot | ~>
       ch   : `.` | n,n,…                 sizes of the CONTINUE chunks as observed
@@ -37,9 +38,10 @@ def parseIds (s : String) : List Id :=
 
 def parseLeader (s : String) : Option (Leader UInt8) :=
   match s.splitOn ":" with
-  | [st, ids, cur, d, w] => do
+  | [st, ids, cur, d, w, tl] => do
     let data ← parseData d
-    pure ⟨st == "1", parseIds ids, idOf cur, data, w == "1"⟩
+    let tail ← Hex.decode tl
+    pure ⟨st == "1", parseIds ids, idOf cur, data, w == "1", tail⟩
   | _ => none
 
 def parseEntry (s : String) : Option (Id × Option (Data UInt8)) :=
